@@ -91,6 +91,7 @@ class Report:
         self.assumptions: list[str] = []
         self.violations: list[Violation] = []
         self.notes: list[str] = []
+        self.stats: list = []
 
     def add_violation(self, v: Violation):
         self.violations.append(v)
